@@ -7,6 +7,8 @@ HERE = os.path.dirname(os.path.dirname(os.path.abspath(__file__)))
 REPO = os.environ.get('HEPH_REPO', '/repo')
 
 ID = 'C16'
+# modules whose functions must not keep state between calls (pyvc.statecheck.hidden_state_census, syntactic)
+HIDDEN_STATE_MODULES = ['src.ir.context']
 LEVEL = 'proof'
 SIDECARS = ['context']
 _M = 'src.ir.context.Context.'
@@ -130,6 +132,27 @@ def gen_ops(rnd, steps, collide):
     return ops
 
 
+def _type_parameter_scenario(ctxmod):
+    import importlib
+    tp = importlib.import_module('src.ir.types')
+    kt = importlib.import_module('src.ir.kotlin_types')
+    c = ctxmod.Context()
+    f, g = ('global', 'f'), ('global', 'g')
+    t1, t2 = tp.TypeParameter('T'), tp.TypeParameter('T', bound=kt.Number)
+    c.add_type(f, 'T', t1)
+    c.add_type(g, 'T', t2)
+    if c.get_namespace(t1) != f or c.get_namespace(t2) != g:
+        return 'after both adds: namespace of T(f) = %r, of T(g) = %r' % (c.get_namespace(t1), c.get_namespace(t2))
+    if c.get_types(f, only_current=True).get('T') is not t1 or c.get_types(g, only_current=True).get('T') is not t2:
+        return 'forward lookup returns the wrong type parameter'
+    c.remove_type(g, 'T')
+    if c.get_namespace(t1) != f:
+        return 'after remove_type(g, T): namespace of T(f) = %r' % (c.get_namespace(t1),)
+    if c.get_namespace(t2) is not None:
+        return 'after remove_type(g, T): the removed declaration still maps to %r' % (c.get_namespace(t2),)
+    return None
+
+
 def bounded(tier, seed, stop_first=False):
     ctxmod, ref = _load()
     n = 40 if tier == 'quick' else 600
@@ -156,6 +179,18 @@ def bounded(tier, seed, stop_first=False):
                                    ops=repr(ops[:k]), what=bad[0], query=repr(bad[2:5]), actual=bad[5], expected=bad[6]))
             if stop_first or len(violations) >= 3:
                 break
+    # real IR declarations as keys of the reverse index: distinct type parameters that share name and variance (T of f, and
+    # T <: Number of g) are distinct declarations
+    evals += 1
+    try:
+        bad = _type_parameter_scenario(ctxmod)
+    except Exception as e:
+        bad = 'exception %s: %s' % (type(e).__name__, e)
+    if bad:
+        violations.append(dict(check='bounded[reverse-lookup:same-named-type-parameters]', function='src.ir.context.Context',
+                               ops='add_type(f, T); add_type(g, T <: Number); get_namespace; remove_type(g, T); get_namespace',
+                               what='reverse lookup', query='-', actual=bad, expected='each declaration maps to its own namespace '
+                               'until it is removed'))
     return dict(evaluations=evals, distinct_nontrivial=len(seen),
                 rule='%d random operation histories of %d add/remove steps over 6 namespaces x 5 kinds (with and without '
                      'cross-kind name collisions, 10%% artificial None declarations); after every step all current / '
@@ -179,6 +214,11 @@ def replay(payload):
         print('replay file carries no concrete input (obligation %s); solver output: %s'
               % (payload.get('obligation'), payload.get('solver', {}).get('reason')))
         return False
+    if str(fi.get('check', '')).startswith('bounded[reverse-lookup'):
+        bad = _type_parameter_scenario(ctxmod)
+        if bad:
+            print('same-named type parameters: ' + bad)
+        return not bad
     ops = eval(fi['ops'], {})
     bad = run_history(ctxmod, ref, ops)
     if bad:
